@@ -134,6 +134,8 @@ type Half struct {
 
 	paused bool // reader sees nothing while paused
 
+	errWithData bool // deliver the end-of-stream error together with the last bytes, as io.Reader allows
+
 	written   int64 // bytes accepted from the writer (before rewrite)
 	enqueued  int64 // bytes put in the queue (after rewrite)
 	delivered int64 // bytes handed to the reader
@@ -223,6 +225,11 @@ func (h *Half) SetRewrite(f func(off int64, p []byte) []byte) {
 	h.rewrite = f
 	h.mu.Unlock()
 }
+
+// SetErrWithData makes the read that delivers the last bytes of the stream
+// (writer closed, or cut offset reached) return them together with the error
+// (n > 0 and err != nil in one call), as the io.Reader contract allows.
+func (h *Half) SetErrWithData(on bool) { h.mu.Lock(); h.errWithData = on; h.mu.Unlock() }
 
 // Pause stops/resumes delivery to the reader.
 func (h *Half) Pause(on bool) { h.mu.Lock(); h.paused = on; h.mu.Unlock(); h.cond.Broadcast() }
@@ -337,6 +344,18 @@ func (c *Conn) readLocked(p []byte) (int, error) {
 				copy(p, h.buf[:n])
 				h.buf = h.buf[n:]
 				h.delivered += int64(n)
+				if h.errWithData {
+					if h.cutAt >= 0 && h.delivered >= h.cutAt {
+						switch h.cutKind {
+						case CutEOF:
+							return n, io.EOF
+						case CutRST:
+							return n, opErr("read", c, syscall.ECONNRESET)
+						}
+					} else if h.wclosed && len(h.buf) == 0 {
+						return n, io.EOF
+					}
+				}
 				return n, nil
 			}
 			if h.cutAt >= 0 && h.delivered >= h.cutAt {
